@@ -17,17 +17,17 @@ Definition judge_C01_nfa (N : nfa nat) (ws : list word) (oaccs : list (option bo
     check (eqb oaccs (map (nfa_accepts N) ws)) 3;
     check (forallb (fun c => opt_seteqb (snd c) (eclose N (fst c))) closures) 4;
     match oEq with
-    | None => 5
+    | None => 1
     | Some tEq => check (forallb (fun q => match lookup q tEq, Eq_get (nfa_Eq N) q with
                                             | Some s, Some m => seteqb s m | _, _ => false end) (nQ N)
-                         && Nat.eqb (length tEq) (length (dedup (nQ N)))) 5
+                         && Nat.eqb (length tEq) (length (dedup (nQ N)))) 1   (* the private cache _nfa_cache: informational *)
     end;
     match oEqa, nfa_Eqa N with
     | Some tEqa, Some mEqa =>
       check (forallb (fun q => forallb (fun a =>
                seteqb (match lookup (q, a) tEqa with Some s => s | None => [] end) (Eqa_get mEqa q a))
-               (neps N :: nS N)) (nQ N)) 6
-    | _, _ => 6
+               (neps N :: nS N)) (nQ N)) 1
+    | _, _ => 1
     end ].
 
 Definition explain_C01_dfa (D : dfa nat) (ws : list word) := map (dfa_accepts D) ws.
